@@ -9,6 +9,7 @@ mod broker;
 mod framework;
 mod rng;
 mod sandbox;
+mod shuttle_eng;
 mod views;
 
 use framework::{Check, Tier};
@@ -20,6 +21,7 @@ static C10: broker::BrokerCheck = broker::BrokerCheck { prop: "C10" };
 static C12: broker::BrokerCheck = broker::BrokerCheck { prop: "C12" };
 static C13: broker::BrokerCheck = broker::BrokerCheck { prop: "C13" };
 static C18: broker::BrokerCheck = broker::BrokerCheck { prop: "C18" };
+static C11: shuttle_eng::ShuttleCheck = shuttle_eng::ShuttleCheck { prop: "C11" };
 
 fn lookup(id: &str) -> Option<&'static dyn Check> {
     Some(match id {
@@ -30,6 +32,7 @@ fn lookup(id: &str) -> Option<&'static dyn Check> {
         "C12" => &C12,
         "C13" => &C13,
         "C18" => &C18,
+        "C11" => &C11,
         _ => return None,
     })
 }
